@@ -6,6 +6,7 @@ import (
 	"io"
 	"log/slog"
 	"net"
+	"sync"
 	"sync/atomic"
 
 	"github.com/ovh/kmip-go"
@@ -47,6 +48,8 @@ type conn struct {
 	cancel func(error)
 	closed atomic.Bool
 	logger *slog.Logger
+	// loops counts the read and write loop goroutines; Close waits for them.
+	loops sync.WaitGroup
 }
 
 // newConn initializes and returns a new conn instance for handling KMIP protocol communication.
@@ -67,17 +70,27 @@ func newConn(netCon net.Conn, ctx context.Context, logger *slog.Logger) *conn {
 		logger: logger,
 	}
 	c.tx.Store(make(chan txMsg))
-	go c.readloop()
-	go c.writeloop()
+	c.loops.Add(2)
+	go func() {
+		defer c.loops.Done()
+		c.readloop()
+	}()
+	go func() {
+		defer c.loops.Done()
+		c.writeloop()
+	}()
 	return c
 }
 
-// Close terminates the connection by invoking the terminate method with net.ErrClosed.
-// It is intended to close the underlying resources associated with the connection.
-// Note: Goroutines associated with the connection are not currently awaited before closure.
+// Close terminates the connection by invoking the terminate method with net.ErrClosed, then waits for the
+// read and write loop goroutines to exit: once the context is canceled and the stream is closed, neither of
+// them can block any more (a pending Read or Write on the closed stream fails, every channel operation they
+// perform also selects on the canceled context, and the per-message error channel is buffered).
+// It must not be called from the read or write loop themselves (they call terminate).
 func (c *conn) Close() error {
-	return c.terminate(net.ErrClosed)
-	// TODO: Wait exit of goroutines
+	err := c.terminate(net.ErrClosed)
+	c.loops.Wait()
+	return err
 }
 
 // terminate gracefully shuts down the connection by performing the following steps:
